@@ -197,6 +197,7 @@ func checkCmd(args []string) {
 	results := e.verifyAll(fns, func(f *ssa.Function) *FnConfig { return sc.Cfg(e, f, isRoot[f]) })
 	fmt.Fprintf(os.Stderr, "[%.1fs] verification conditions solved\n", time.Since(t0).Seconds())
 	lemmaObls := e.verifyLemmas(*prop)
+	lemmaObls = append(lemmaObls, e.subtypeObligations(*prop)...)
 
 	// ---- triage --------------------------------------------------------------------------------
 	findings := loadFindings(*vdir)
